@@ -237,8 +237,9 @@ def groups(tier):
                        "cond_timeout": timeout, "path_timeout": 30.0, "expect_space": nc ** m, "weight": nc ** m})
 
     if tier == "quick":
-        for p in ("P1", "P2", "P3", "P4"):
+        for p in ("P1", "P2", "P3"):
             add(p, 2, 4)
+        add("P4", 2, 3)
         add("P1", 2, 5, firsts=[0])
     else:
         for p in PACKS:
@@ -261,9 +262,9 @@ def meta(tier):
                       DefaultQueue.set_stop_yielding, DefaultQueue.can_do_inferral, DefaultQueue.can_do_initial,
                       DefaultQueue._populate_staging, DefaultQueue._change_level, DefaultQueue._iter_helper_curr,
                       DefaultQueue._iter_helper_working, DefaultQueue.__next__, DefaultQueue.do_level],
-        "bounds": {"quick": "all histories of 4 operations (add/stop/verified/not-inferrable on 2 labels, next, do_level) for four packs "
-                            "(1 inferral+1 initial+1 set; 2 initial+sets of 2,1; inferral only+1 set; two sets only), and of 5 "
-                            "operations starting with an add for the first pack; each followed by a complete drain",
+        "bounds": {"quick": "all histories of 4 operations (add/stop/verified/not-inferrable on 2 labels, next, do_level) for three packs "
+                            "(1 inferral+1 initial+1 set; 2 initial+sets of 2,1; inferral only+1 set), of 3 operations for a pack with "
+                            "two sets only, and of 5 operations starting with add(0) for the first pack; each followed by a complete drain",
                    "thorough": "5 operations x 6 packs over 2 labels; 4 operations x 3 packs over 3 labels; 6 operations for the largest pack starting with add(0)"}[tier],
         "outside": ["longer histories, more labels", "user-supplied CSSQueue subclasses", "status() strings"],
         "stubs": ["marker strategies (the queue never calls a strategy)"],
